@@ -21,11 +21,45 @@ try:
     HAVE_Z3 = True
     SumI = z3.Function('SumI', AI, I, I, I)
     SumR = z3.Function('SumR', AR, I, I, R)
+    MaxR = z3.Function('MaxR', AR, I, I, R)
 except ImportError:      # native interpreter (/venv) has no z3
     HAVE_Z3 = False
     Sym = SChar = SSeq = SSet = Choice = ()
 
 _depth = [0]
+_memo = {}
+
+
+def _key(v):
+    if HAVE_Z3:
+        if isinstance(v, Sym) or isinstance(v, SChar):
+            return ('z', v.e.get_id())
+        if isinstance(v, SSeq):
+            return ('s', v.arr.get_id(), v.off.get_id(), v.n.get_id(), v.kind, v.ek)
+        if z3.is_expr(v):
+            return ('e', v.get_id())
+    if isinstance(v, (int, str, Fraction, bool, type(None))):
+        return ('c', type(v).__name__, v)
+    raise TypeError
+
+
+def memo(f):
+    """memoise a spec function on the identity of its (symbolic) arguments; only used while no bound variable is open"""
+    def g(*a):
+        if not HAVE_Z3:
+            return f(*a)
+        try:
+            k = (f.__name__, _depth[0]) + tuple(_key(x) for x in a)
+        except TypeError:
+            return f(*a)
+        hit = _memo.get(k)
+        if hit is not None:
+            return hit[0]
+        r = f(*a)
+        _memo[k] = (r, a)
+        return r
+    g.__name__ = f.__name__
+    return g
 
 
 def _sym(*vs):
@@ -39,6 +73,31 @@ def _bound():
 
 def _unbound():
     _depth[0] -= 1
+
+
+DEFS = {}
+
+
+def define(name, argkinds, retkind):
+    """named spec function over scalars: symbolically an uninterpreted application  name(args)  whose defining
+    equation  name(args) == body(args)  is instantiated by the solver front end at the applications that occur
+    (keeps terms small and makes beta-reduced applications syntactically stable)"""
+    def deco(f):
+        if not HAVE_Z3:
+            return f
+        srt = {'int': I, 'real': R, 'bool': B}
+        decl = z3.Function(name, *([srt[k] for k in argkinds] + [srt[retkind]]))
+        DEFS[name] = (decl, f, argkinds, retkind)
+
+        def g(*a):
+            if not _sym(*a):
+                return f(*a)
+            zs = [ops.z3int(x) if k == 'int' else (ops.z3real(x) if k == 'real' else ops.z3bool(x)) for x, k in zip(a, argkinds)]
+            return Sym(decl(*zs), retkind)
+        g.__name__ = name
+        g.body = f
+        return g
+    return deco
 
 
 def isum(f, lo, hi):
@@ -69,6 +128,37 @@ def rsum(f, lo, hi):
     finally:
         _unbound()
     return ops.mk(SumR(LAM(j, body), ops.z3int(lo), ops.z3int(hi)), 'real')
+
+
+def rmax(f, lo, hi):
+    """running maximum of f(j) for lo <= j < hi, starting from -1 (the "not yet computed" value of the delta-max search)"""
+    if not _sym(lo, hi) and (hi - lo <= 2 or not HAVE_Z3 or not _sym(f(lo))):
+        acc = Fraction(-1)
+        for j in range(lo, hi):
+            v = f(j)
+            acc = ite(acc < v, v, acc)
+        return acc
+    j = _bound()
+    try:
+        body = ops.z3real(f(Sym(j, 'int')))
+    finally:
+        _unbound()
+    return ops.mk(MaxR(LAM(j, body), ops.z3int(lo), ops.z3int(hi)), 'real')
+
+
+def rep(c, k):
+    """the string c * k"""
+    if _sym(k, c):
+        return ops.repeat(c, k)
+    return c * k
+
+
+def cat(*parts):
+    """string concatenation, left to right"""
+    acc = parts[0]
+    for p_ in parts[1:]:
+        acc = ops.concat(acc, p_) if _sym(acc, p_) else acc + p_
+    return acc
 
 
 def cnt(p, lo, hi):
@@ -262,7 +352,7 @@ def mkseq(f, n, ek='real'):
     return SSeq(LAM(j, body), 0, ops.z3int(n), 'list', ek)
 
 
-NAMES = dict(mkseq=mkseq, mkset=mkset, forall_char=forall_char, isum=isum, rsum=rsum, cnt=cnt, ite=ite, implies=implies, iff=iff, And=And, Or=Or, Not=Not,
+NAMES = dict(define=define, memo=memo, rmax=rmax, rep=rep, cat=cat, mkseq=mkseq, mkset=mkset, forall_char=forall_char, isum=isum, rsum=rsum, cnt=cnt, ite=ite, implies=implies, iff=iff, And=And, Or=Or, Not=Not,
              forall=forall, exists=exists, length=length, isin=isin, sqrt=sqrt, pow10=pow10, logb=logb,
              absv=absv, toreal=toreal, fdiv=fdiv, maxv=maxv, minv=minv, seq_eq=seq_eq, is_none=is_none,
              the=the, Fraction=Fraction)
